@@ -114,6 +114,9 @@ type c10Case struct {
 	resend [][]string
 	// the interval function cancels the request's context when called with this attempt number (0: never)
 	ivx int
+	// … not the function itself: another goroutine, while the wait that follows is in progress
+	// (same observable behaviour: the model line is the same)
+	ivxWait bool
 }
 
 // dynamic: the retry option / context is edited while the call is in flight, or the Request is re-sent.
@@ -579,6 +582,10 @@ func (x *c10Run) wrapInterval(force bool) {
 		x.ivAtt = append(x.ivAtt, attempt)
 		x.log = append(x.log, "I"+strconv.Itoa(attempt)+"@"+c10View(resp)+"="+strconv.FormatInt(int64(d), 10))
 		if x.tc.ivx > 0 && x.tc.ivx == attempt {
+			if x.tc.ivxWait { // cancelled by the caller while the loop is waiting: the timer is far away
+				go func() { time.Sleep(time.Millisecond); x.cancel() }()
+				return 400 * time.Millisecond
+			}
 			x.cancel() // the interval function itself cancels the context
 		}
 		if x.ctx.Err() != nil {
@@ -1702,9 +1709,9 @@ func TestVerif_C10_loop(t *testing.T) {
 	// … a callback cancels the request's context: response middleware, condition, hook, the
 	// interval function itself; bounded and unbounded counts
 	for _, n0 := range []string{"n=-1", "n=5"} {
-		for _, who := range []string{"hook", "cond", "after", "ivl"} {
+		for _, who := range []string{"hook", "cond", "after", "ivl", "wait"} {
 			for _, at := range []int{-1, 0, 1, 2, 3} {
-				if (who == "ivl" && at < 1) || (who == "hook" && at == 0) {
+				if ((who == "ivl" || who == "wait") && at < 1) || (who == "hook" && at == 0) {
 					continue
 				}
 				tc := c10Simple()
@@ -1724,7 +1731,7 @@ func TestVerif_C10_loop(t *testing.T) {
 				case "after":
 					tc.after = []string{"F~" + e}
 				default:
-					tc.ivx = at
+					tc.ivx, tc.ivxWait = at, who == "wait"
 				}
 				recs = append(recs, c10Exec(tc, dir))
 				s.Count("dyn:cancel-by-" + who)
